@@ -1,2 +1,133 @@
-(* C04 — theorems are added below as the proofs land. *)
-From SC Require Import Base.Prelude Resource.Impl Resource.Spec Resource.Pull.
+(* C04 — With backpressure the stream is an exact, ordered edit script.
+   Theorems only; stated for an arbitrary message algebra, callbacks, read mask and history. *)
+From SC Require Import Base.Prelude Resource.Impl Resource.Spec Resource.Pull Resource.ImplProofs
+  Resource.SpecProofs Resource.PullProofs Resource.Flat Resource.Judge.
+
+Section C04.
+  Variable M : Type.
+  Variable m_eqb : M -> M -> bool.
+  Variable m_empty : M.
+  Variable writer : Type.
+  Variable w_validate : writer -> option Z.
+  Variable w_merge : writer -> M -> M -> M.
+  Variable rmask : Type.
+  Variable r_filter : rmask -> M -> M.
+  Variable clock_at : Z -> Z.
+  Variable str_ltb : string -> string -> bool.
+  Variable idfun : option (string -> string).
+  Hypothesis ltb_irrefl : forall a, str_ltb a a = false.
+  Hypothesis ltb_trans : forall a b c, str_ltb a b = true -> str_ltb b c = true -> str_ltb a c = true.
+  Hypothesis ltb_total : forall a b, str_ltb a b = false -> str_ltb b a = false -> a = b.
+
+  Notation spec_step := (spec_step m_eqb m_empty w_validate w_merge r_filter clock_at str_ltb idfun).
+
+  (* every call publishes nothing (and leaves the contents alone) or exactly one event; the event
+     carries the id, the old value (the body stored before, absent for an ADD), the new value (the
+     body stored after, absent for a REMOVE), a REMOVE kind exactly when the item is gone, and the
+     change time that was stored with the item *)
+  Theorem C04_one_event_per_effective_write : forall s op s' out ev,
+    spec_step s op = (s', out, ev) -> sorted str_ltb (c_items s) ->
+    (ev = [] /\ c_items s' = c_items s) \/
+    (exists e, ev = [e] /\ describes e (c_items s) (c_items s') /\ failed out = false).
+  Proof. intros. eapply step_events; eauto. Qed.
+
+  Theorem C04_no_event_for_failed_write : forall s op s' out ev,
+    spec_step s op = (s', out, ev) -> failed out = true -> ev = [].
+  Proof. intros. eapply failed_step_no_event; eauto. Qed.
+
+  (* the kind of the event of a successful Update/Add: ADD iff the id was absent before *)
+  Theorem C04_kind_and_old_new : forall s id0 msg (o : wopts M writer) cands s' nv ev cb,
+    spec_c_update m_eqb m_empty w_validate w_merge clock_at str_ltb idfun s id0 msg o cands = (s', inl nv, ev, cb) ->
+    exists id t, ev = [mkCE id t (match lookup id (c_items s) with Some _ => KUpdate | None => KAdd end)
+                            (option_map (@it_body M) (lookup id (c_items s))) (Some nv)] /\
+                 lookup id (c_items s') = Some (mkItem nv t) /\
+                 t = match wo_time o with Some t0 => t0 | None => clock_at (c_reads s) end.
+  Proof.
+    intros s id0 msg o cands s' nv ev cb H. apply update_outcomes in H.
+    destruct H as [(code & Hr & _)|(id & gen & nv' & t & Hr & _ & Hl & _ & Ht & Hev & _)]; [discriminate|].
+    inversion Hr. subst nv'. exists id, t. auto.
+  Qed.
+
+  (* without an include predicate and without an equivalence the subscriber receives the seed
+     followed by exactly the published events (read-mask filtered), in order *)
+  Theorem C04_stream_is_seed_then_script : forall (ro : ropts M rmask) (s : cstate M) evs,
+    ro_include ro = None ->
+    pull_collection r_filter None s ro evs =
+    (if ro_updates_only ro then [] else seeds r_filter ro (c_items s)) ++
+    map (fun e => cc_filter r_filter ro (of_event e)) evs.
+  Proof. intros. apply stream_is_seed_then_script. assumption. Qed.
+
+  (* seeds: one ADD per item in id order, flagged seed, carrying the stored change time *)
+  Theorem C04_seeds_shape : forall (ro : ropts M rmask) (l : list (string * item M)),
+    map (@cc_id M) (seeds r_filter ro l) = map fst l /\
+    Forall (fun c => cc_seed c = true /\ cc_kind c = KAdd /\ cc_old c = None) (seeds r_filter ro l) /\
+    map (@cc_time M) (seeds r_filter ro l) = map (fun p => it_time (snd p)) l /\
+    map (@cc_new M) (seeds r_filter ro l) = map (fun p => Some (filt r_filter ro (it_body (snd p)))) l.
+  Proof. intros. apply seeds_shape. Qed.
+
+  (* exactly the final seed is flagged last-seed *)
+  Theorem C04_last_seed_flag : forall (ro : ropts M rmask) (l : list (string * item M)) d,
+    l <> [] ->
+    cc_last_seed (last (seeds r_filter ro l) d) = true /\
+    Forall (fun c => cc_last_seed c = false) (removelast (seeds r_filter ro l)).
+  Proof. intros. apply seeds_last_flag. assumption. Qed.
+
+  Theorem C04_updates_only_no_seed : forall (ro : ropts M rmask) (s : cstate M) evs c,
+    ro_updates_only ro = true -> In c (pull_collection r_filter None s ro evs) -> cc_seed c = false.
+  Proof. intros. eapply updates_only_no_seed; eauto. Qed.
+
+  (* Value: seed (if any) then one change per published event; nothing is suppressed without an
+     equivalence *)
+  Theorem C04_value_stream_exact : forall (ro : ropts M rmask) (s : vstate M) evs,
+    pull_value r_filter None s ro evs =
+    (match (if ro_updates_only ro then None else v_val s) with
+     | Some v => [mkVC (filt r_filter ro v) (v_time s) true true]
+     | None => []
+     end) ++ map (fun e => mkVC (filt r_filter ro (ve_value e)) (ve_time e) false false) evs.
+  Proof. intros. apply value_stream_exact. Qed.
+
+  (* with an equivalence a change is delivered exactly when it is not equivalent to what the
+     subscriber holds (the last delivered value; initially the seed as it was sent) *)
+  Theorem C04_equivalence_suppresses_exactly_equivalent : forall cmp (ro : ropts M rmask) evs last e,
+    let v := filt r_filter ro (ve_value e) in
+    v_forward r_filter (Some cmp) ro last (evs ++ [e]) =
+    v_forward r_filter (Some cmp) ro last evs ++
+    (if cmp (holds r_filter cmp ro last evs) (Some v) then [] else [mkVC v (ve_time e) false false]).
+  Proof. intros. apply equivalence_delivery. Qed.
+End C04.
+
+Print Assumptions C04_one_event_per_effective_write.
+Print Assumptions C04_no_event_for_failed_write.
+Print Assumptions C04_kind_and_old_new.
+Print Assumptions C04_stream_is_seed_then_script.
+Print Assumptions C04_seeds_shape.
+Print Assumptions C04_last_seed_flag.
+Print Assumptions C04_updates_only_no_seed.
+Print Assumptions C04_value_stream_exact.
+Print Assumptions C04_equivalence_suppresses_exactly_equivalent.
+
+(* the pinned commit read the clock a second time for the event: event time <> stored time *)
+Theorem C04_event_time_v0_refuted :
+  let '(s', _, ev) := v_set_v0 fmsg_eqb fzero fw_validate fw_merge fclock (v_init fclock None) (mkF 1 0 0)
+                        (to_wopts None (mkFWO None None None None false None false None false None None false false false false)) in
+  exists e, ev = [e] /\ ve_time e <> v_time s'.
+Proof. vm_compute. eexists. split; [reflexivity|]. simpl. discriminate. Qed.
+
+(* the pinned commit compared the first update with the unfiltered seed (read mask + equivalence):
+   a write that does not touch the requested field was delivered as a duplicate of the seed *)
+Theorem C04_value_pull_raw_last_v0_refuted :
+  exists (s : vstate fmsg) ev,
+    pull_value_v0 fr_filter (Some (interp_eqv EqAll)) s (to_ropts (mkFRO (Some [Fa]) false None)) ev =
+      [mkVC (mkF 1 0 0) 1000 true true; mkVC (mkF 1 0 0) 5 false false] /\
+    pull_value fr_filter (Some (interp_eqv EqAll)) s (to_ropts (mkFRO (Some [Fa]) false None)) ev =
+      [mkVC (mkF 1 0 0) 1000 true true].
+Proof. exists (mkV (Some (mkF 1 2 0)) 1000 1), [mkVE (mkF 1 3 0) 5]. vm_compute. auto. Qed.
+
+Example C04_nonvacuous :
+  let o := mkFWO None None None None false None false None false None None true false false false in
+  let '(cs, _) := model_cstream None None None [FUpdate "b" (mkF 1 0 0) o []] (mkFRO None false None)
+                    [FUpdate "a" (mkF 2 0 0) o []; FUpdate "b" (mkF 3 0 0) o []; FDelete "a" o] in
+  map (fun c => (cc_id c, cc_kind c, cc_seed c, cc_last_seed c)) cs =
+  [("b"%string, KAdd, true, true); ("a"%string, KAdd, false, false);
+   ("b"%string, KUpdate, false, false); ("a"%string, KRemove, false, false)].
+Proof. vm_compute. reflexivity. Qed.
